@@ -24,7 +24,12 @@ import (
 //
 // usage: zeno-verif c03 <scratch-dir> <trace> <workers> <pool> <async 0|1> <ratelimit 0|1> <seencheck 0|1> <proxy 0|1> <moment>
 //
-//	moment: idle | drained | paused | diskpaused | midfetch | hook:<point>:<k>
+//	moment: idle | drained | paused | diskpaused | midfetch | hook:<point>:<k> | hold:<point>:<k>
+//
+// hook: Stop is requested when the k-th occurrence of the point is reached, the goroutine that reached it runs on.
+// hold: the same, but that goroutine is kept at the point until Stop has run ahead as far as it can without it
+// (no further step of stopPipeline for 200 ms; at most 3 s) - a stop request arriving exactly there, with the
+// rest of the shutdown sequence ahead of the worker.
 func init() { scenarios["c03"] = c03 }
 
 func c03(args []string) error {
@@ -88,7 +93,10 @@ func c03(args []string) error {
 	fire := func(why string) { once.Do(func() { trigger <- why }) }
 	var count atomic.Int64
 	point, k := "", int64(0)
-	if strings.HasPrefix(moment, "hook:") {
+	hold := strings.HasPrefix(moment, "hold:")
+	var stopCalled atomic.Bool
+	var lastStep atomic.Int64
+	if strings.HasPrefix(moment, "hook:") || hold {
 		parts := strings.Split(moment, ":")
 		point = parts[1]
 		kk, _ := strconv.Atoi(parts[2])
@@ -96,9 +104,21 @@ func c03(args []string) error {
 	}
 	var archTakes atomic.Int64
 	run.extra = func(p string, a ...any) {
+		if p == "stop.step" {
+			lastStep.Store(time.Now().UnixNano())
+		}
 		if point != "" && p == point {
 			if count.Add(1) == k {
 				fire("hook " + p)
+				if hold {
+					deadline := time.Now().Add(3 * time.Second)
+					for time.Now().Before(deadline) {
+						if stopCalled.Load() && time.Since(time.Unix(0, lastStep.Load())) > 200*time.Millisecond {
+							break
+						}
+						time.Sleep(5 * time.Millisecond)
+					}
+				}
 			}
 		}
 		if p == "arch.take" && archTakes.Add(1) == 3 && (moment == "paused") {
@@ -148,6 +168,8 @@ func c03(args []string) error {
 	}
 	// the bound comes from the configuration: one HTTP timeout per attempt, retry sleeps, writer drain
 	watchdog := time.Duration(run.cfg.HTTPTimeout*(run.cfg.MaxRetry+1)+2*run.cfg.MaxRetry+25) * time.Second
+	lastStep.Store(time.Now().UnixNano())
+	stopCalled.Store(true)
 	ok := run.Stop(watchdog)
 	dir := filepath.Join(run.cfg.JobPath, "warcs")
 	open, final := run.WarcFiles()
